@@ -418,7 +418,8 @@ class Struct(metaclass=MetaStruct):
         return self._buffer, self._offset
 
     def __setstate__(self, state):
-        self._buffer, self._offset = state
+        # rebuild also the cached structure (offsets of dynamic fields, size)
+        self.__dict__.update(self._from_buffer(*state).__dict__)
 
     @classmethod
     def _gen_data_paths(cls, base=None):
